@@ -54,6 +54,7 @@ function* maps(maxSize) {
 // ctx.fresh() yields unique type names; ctx.inner(map) encodes a sub-map with the remaining depth budget
 const split = (m) => [m.slice(0, Math.ceil(m.length / 2)), m.slice(Math.ceil(m.length / 2))];
 const EXTRA = { name: 'zz', kind: 'prop', optional: false, type: 'number' };
+const allReq = (e) => (e.kind === 'getter' ? e : Object.assign({}, e, { optional: false, key: e.key && e.key.replace(/\?$/, '') }));
 const ENC = {
   inline: (m) => ({ type: lit(m), decls: [], map: m }),
   alias: (m, c) => { const n = c.fresh('A'); const i = c.inner(m); return { type: n, decls: i.decls.concat([`type ${n} = ${i.type};`]), map: i.map }; },
@@ -79,6 +80,10 @@ const ENC = {
   index: (m, c) => { const n = c.fresh('O'); const i = c.inner(m); return { type: `${n}['k']`, decls: i.decls.concat([`type ${n} = { k: ${i.type}; other: string };`]), map: i.map }; },
   index2: (m, c) => { const n = c.fresh('O'); const i = c.inner(m); return { type: `${n}['k']['j']`, decls: i.decls.concat([`type ${n} = { k: { j: ${i.type}; k: { wrong: 1 } }; j: { alsoWrong: 2 } };`]), map: i.map }; },
   index2Iface: (m, c) => { const n = c.fresh('O'), p = c.fresh('P'); const i = c.inner(m); return { type: `${n}['row']['cell']`, decls: i.decls.concat([`interface ${p} { cell: ${i.type}; row: { no: 1 } }`, `interface ${n} { row: ${p}; cell: { no: 2 } }`]), map: i.map }; },
+  // a union whose members declare the same keys; a key is optional when one member says so, whichever comes first
+  unionOptFirst: (m, c) => { const i = c.inner(m); return { type: `${i.type} | ${lit(i.map.map(allReq))}`, decls: i.decls, map: i.map }; },
+  unionOptLast: (m, c) => { const i = c.inner(m); return { type: `${lit(i.map.map(allReq))} | ${i.type}`, decls: i.decls, map: i.map }; },
+  unionOptMiddle: (m, c) => { const n = c.fresh('U'); const i = c.inner(m); return { type: n, decls: i.decls.concat([`type ${n} = ${lit(i.map.map(allReq))} | ${i.type} | ${lit(i.map.map(allReq))};`]), map: i.map }; },
   indexIface: (m, c) => { const n = c.fresh('O'); const i = c.inner(m); return { type: `${n}['k']`, decls: i.decls.concat([`interface ${n} { k: ${i.type}; other: string }`]), map: i.map }; },
 };
 const ENC_KEYS = Object.keys(ENC);
